@@ -10,6 +10,7 @@ import (
 
 	"io"
 	"net/http"
+	"strconv"
 )
 
 // PairVerify handles the /pair-verify endpoint and returns TLV8 encoded data
@@ -59,13 +60,21 @@ func (endpoint *PairVerify) ServeHTTP(response http.ResponseWriter, request *htt
 		log.Info.Println(err)
 		response.WriteHeader(http.StatusInternalServerError)
 	} else {
-		io.Copy(response, out.BytesBuffer())
+		buf := out.BytesBuffer()
+		response.Header().Set("Content-Length", strconv.Itoa(buf.Len()))
+		io.Copy(response, buf)
 
 		// When key verification is done, switch to a secure session
 		// based on the negotiated shared session key
 		b := out.GetByte(pair.TagSequence)
 		switch pair.VerifyStepType(b) {
 		case pair.VerifyStepFinishResponse:
+			// The response must leave in plain text: send it before the
+			// cryptographer is handed over, otherwise a concurrent read on
+			// the connection activates the encryption too early.
+			if f, ok := response.(http.Flusher); ok {
+				f.Flush()
+			}
 			if secSession, err = crypto.NewSecureSessionFromSharedKey(ctlr.SharedKey()); err == nil {
 				log.Debug.Println("Setup secure session")
 				session.SetCryptographer(secSession)
